@@ -38,7 +38,7 @@ func (g *Generator) generateSpecificEnum(enumType string, enumValues []enum) []j
 	opc := make([]jen.Code, len(enumValues))
 	cases := make([]jen.Code, len(enumValues))
 	for i, id := range enumValues {
-		name := goify(id.Name, true)
+		name := enumValueName(id.Name, enumType)
 
 		opc[i] = jen.Id(name).Id(typeID).Op("=").Id(fmt.Sprintf("%#v", id.CRC))
 		cases[i] = jen.Case(jen.Id(typeID).Call(jen.Id(fmt.Sprintf("%#v", id.CRC)))).Block(jen.Return(jen.Lit(id.Name)))
